@@ -20,6 +20,8 @@ type seg struct {
 	state int
 }
 
+var inDecoy bool
+
 func chainSegs(kind string, b []byte, str bool) (res []seg, err string) {
 	enter(b, kindName[kind]+" chain")
 	defer leave()
@@ -31,6 +33,22 @@ func chainSegs(kind string, b []byte, str bool) (res []seg, err string) {
 	st, off := -1, 0
 	if !str {
 		rest := b
+		if useArena && !inDecoy && len(b) > 0 && len(b) <= len(arena) {
+			// the same memory held another text of the same length a moment ago (ASCII letters in the other
+			// case: what SB8 decides on), segmented by the same entry point: a reused buffer, see viaArena
+			inDecoy = true
+			decoy := append([]byte(nil), b...)
+			for i, c := range decoy {
+				if c >= 'a' && c <= 'z' {
+					decoy[i] = c - 32
+				} else if c >= 'A' && c <= 'Z' {
+					decoy[i] = c + 32
+				}
+			}
+			chainSegs(kind, viaArena(decoy), false)
+			inDecoy = false
+			rest = viaArena(b)
+		}
 		for len(rest) > 0 {
 			if len(res) > len(b) {
 				return res, "more calls than bytes"
